@@ -42,8 +42,8 @@ Proof.
       destruct s as [d b c p r dr cs rc]; simpl in *.
       destruct p; simpl in *.
       + destruct d; destruct Hin as [<-|[]]; left; reflexivity.
-      + apply in_app_or in Hin. apply in_or_app. destruct Hin as [Hin|Hin].
-        * left. destruct d; [|destruct Hin]. destruct Hin as [<-|[]]. left. reflexivity.
+      + destruct Hin as [<-|Hin].
+        * left. reflexivity.
         * right. destruct r; destruct Hin as [<-|[]]; left; reflexivity.
       + destruct (Nat.ltb (length b) cap); [|destruct Hin]. destruct Hin as [<-|[]]. left. reflexivity.
       + destruct (Nat.ltb (length b) cap); [|destruct Hin]. destruct Hin as [<-|[]]. left. reflexivity.
